@@ -53,6 +53,24 @@ class Skip(Exception):
     """Raised by a unit for a size combination that lies outside its stated domain (not a vacuity error)."""
 
 
+class QuantHelper:
+    """Universally quantified invariant clauses in two polarities: as an assumption a z3 ForAll (with pattern), as a goal
+    the Skolemised ground implication (fresh constants), which is far more robust for the solver than a negated ForAll."""
+
+    def __init__(self, mode):
+        self.mode = mode
+
+    def forall(self, names, rng_fn, body_fn, pattern_fn=None):
+        from .np_util import forall as _forall
+        if self.mode == 'assume':
+            vs = [z3.Int('q_' + n) for n in names]
+            body = z3.Implies(T.to_bool_term(rng_fn(*vs)), T.to_bool_term(body_fn(*vs)))
+            pat = pattern_fn(*vs) if pattern_fn is not None else None
+            return _forall(vs, body, T.to_z3(pat) if pat is not None and T.is_z3(T.N(pat)) else None)
+        sk = [T.fresh('sk_' + n, T.I) for n in names]
+        return T.simplies(rng_fn(*sk), body_fn(*sk))
+
+
 class LoopInv:
     """Loop invariant spec: clauses(S, env, pre, k, lo, hi) -> iterable of (name, cond)."""
 
@@ -67,7 +85,10 @@ class LoopInv:
             pre[k] = v.snapshot() if isinstance(v, CArr) else (v.copy() if isinstance(v, BArr) else v)
         return pre
 
-    def clauses(self, itp, locs, pre, k, lo, hi):
+    def clauses(self, itp, locs, pre, k, lo, hi, mode='assume'):
+        import inspect
+        if len(inspect.signature(self.fn).parameters) >= 6:
+            return list(self.fn(Env(locs), Env(pre), k, lo, hi, QuantHelper(mode)))
         return list(self.fn(Env(locs), Env(pre), k, lo, hi))
 
     def havoc(self, itp, locs, names, bufs):
@@ -409,7 +430,7 @@ class Verifier:
         n_paths = 0
         while stack:
             prefix = stack.pop()
-            cx = T.set_ctx(T.Ctx(decisions=prefix, mode=self.mode, opts=dict(opts or {}, root=qualname)))
+            cx = T.set_ctx(T.Ctx(decisions=prefix, mode=self.mode, opts=dict(self.unit.get('opts') or {}, **dict(opts or {}, root=qualname))))
             itp.depth = 0
             out = None
             try:
